@@ -156,7 +156,11 @@ func (i *MapIterator) Key() Object {
 // Value returns the value of the current element.
 func (i *MapIterator) Value() Object {
 	k := i.k[i.i-1]
-	return i.v[k]
+	if v, ok := i.v[k]; ok && v != nil {
+		return v
+	}
+	// the key was deleted while iterating
+	return UndefinedValue
 }
 
 // StringIterator represents an iterator for a string.
